@@ -131,7 +131,7 @@ class Flow:
 
 NEXT = Flow("next")
 
-DROPPED_PREFIXES = ("logger.", "logging.", "time.", "print", "msg_file.")
+DROPPED_PREFIXES = ("logger.", "logging.", "time.", "print(", "msg_file.", "sleep(")
 
 
 def is_num(v):
@@ -680,6 +680,12 @@ class Interp:
                     lo, hi, step = [next(it) if p is not None else None for p in parts]
                     yield st2, self.slice(obj, lo, hi, step, st2)
                 continue
+            if isinstance(node.slice, ast.Tuple) and any(isinstance(e, ast.Slice) for e in node.slice.elts):
+                # numpy-style multi-axis slicing: only objects that model it themselves
+                if hasattr(obj, "pyvc_subscript"):
+                    yield st1, obj.pyvc_subscript(Opaque("multi-axis slice"), st1, self, node)
+                    continue
+                raise Unsupported(f"multi-axis slice of {obj!r} at line {node.lineno}")
             for st2, idx in self.ev(node.slice, st1):
                 if idx is RAISE:
                     yield st2, RAISE
@@ -850,11 +856,17 @@ class Interp:
     def ev_Call(self, node, st):
         if any(isinstance(a, ast.Starred) for a in node.args) or any(k.arg is None for k in node.keywords):
             raise Unsupported("*args/**kwargs call")
+        dotted = ast.unparse(node.func) + "("
+        if dotted.startswith(DROPPED_PREFIXES):
+            # extraction rule (DESIGN 2.1): logging / progress-file / timing calls are dropped unevaluated
+            self.dropped.append(f"{dotted}@{node.lineno}")
+            yield st, Opaque(dotted)
+            return
         for st1, f in self.ev(node.func, st):
             if f is RAISE:
                 yield st1, RAISE
                 continue
-            if isinstance(f, ExtName) and f.dotted.startswith(DROPPED_PREFIXES):
+            if isinstance(f, ExtName) and (f.dotted + "(").startswith(DROPPED_PREFIXES):
                 # extraction rule (DESIGN 2.1): evaluate nothing, record the drop
                 self.dropped.append(f"{f.dotted}@{node.lineno}")
                 yield st1, Opaque(f.dotted)
@@ -970,6 +982,20 @@ class Interp:
         if name == "append":
             recv.set(st, seq.appended(args[0]))
             yield st, None
+            return
+        if name == "pop":
+            n = seq.length
+            self.oblige(st, f"no_index_error_in_pop@{node.lineno}", n >= 1)
+            st.assume(n >= 1)
+            if args and args[0] == 0:
+                val = seq.elem(z3.IntVal(0))
+                recv.set(st, self.seq_slice(seq, 1, None, st))
+            elif not args:
+                val = seq.elem(n - 1)
+                recv.set(st, SymSeq(seq.comps, n - 1, seq.kinds, seq.tuple_elems))
+            else:
+                raise Unsupported("list.pop(k) with k != 0")
+            yield st, val
             return
         if name == "remove" and len(seq.comps) == 1:
             # list.remove(x): deletes the FIRST element equal to x; ValueError if absent (-> obligation)
@@ -1449,6 +1475,8 @@ class Interp:
         for k, n in enumerate(loops):
             if n.lineno == node.lineno and n.col_offset == node.col_offset:
                 spec = c.loops.get(k)
+                if spec is None and isinstance(n, ast.For) and isinstance(n.target, ast.Name):
+                    spec = c.loops.get("for:" + n.target.id)  # keyed by the loop variable (robust to loops added elsewhere)
                 if spec is None:
                     raise Unsupported(f"{c.key}#loop{k} (line {node.lineno}) has no invariant in the sidecar")
                 return k, spec
@@ -1655,7 +1683,11 @@ class Interp:
         self.cur_contract = contract
         st.env = dict(args)
         self.entry = st.fork()
-        for st1, flow in self.exec_block(fnode.body, st):
+        body = fnode.body
+        if getattr(contract, "slice", None) is not None:
+            # mechanical extraction: only the selected statements of the real function are executed
+            body = contract.slice(fnode)
+        for st1, flow in self.exec_block(body, st):
             self.paths_explored += 1
             if flow.kind == "next":
                 flow = Flow("return", None)
